@@ -1,7 +1,11 @@
 //! h_world: produce world-domain transcripts from the real implementation.
-//!   h_world gen <seed> <cases> <maxlen>      random histories (probing after each mutating op)
-//!   h_world exh <len> [<shard> <nshards>]    every sequence of exactly <len> alphabet ops
-//!   h_world run <file>                       execute the scripts in <file> (`case id` + op lines)
+//!   h_world gen <seed> <cases> <maxlen>               random entity histories (probing after each mutating op)
+//!   h_world exh <len> [<shard> <nshards>]             every sequence of exactly <len> entity-alphabet ops
+//!   h_world sgen <seed> <cases> <maxlen> <focus>      random storage/lazy histories; focus = any|tracked|lazy|rjoin|far|ledger|many
+//!   h_world sexh <kind> <len> [<shard> <nshards>]     every sequence of <len> store-alphabet ops on one kind
+//!   h_world run <file>                                execute the scripts in <file> (`case id` + op lines)
+//!   h_world cont <file> <depth> | contgen <file> <seed> <n> <len>   continuations of a base script
+//! Env: VH_LEDGER=1 prints the values destroyed by each op; VH_PROBE=0 disables probes.
 use std::io::Write;
 use vh::rng::Rng;
 use vh::world_dom::*;
@@ -13,9 +17,31 @@ fn flush(out: &mut String) {
     out.clear();
 }
 
+fn read_scripts(path: &str) -> Vec<(String, Vec<Op>)> {
+    let text = std::fs::read_to_string(path).unwrap();
+    let mut res: Vec<(String, Vec<Op>)> = Vec::new();
+    for line in text.lines() {
+        let line = line.trim();
+        if line.is_empty() || line.starts_with('#') || line.starts_with("domain") || line.starts_with("in ") { continue; }
+        if let Some(id) = line.strip_prefix("case ") {
+            res.push((id.trim().to_string(), Vec::new()));
+        } else {
+            let op = parse_op(line).unwrap_or_else(|| panic!("bad op line: {}", line));
+            if res.is_empty() { res.push(("anon".into(), Vec::new())); }
+            res.last_mut().unwrap().1.push(op);
+        }
+    }
+    res
+}
+
 fn main() {
     std::panic::set_hook(Box::new(|_| {})); // panics are results, not noise
     let args: Vec<String> = std::env::args().collect();
+    let ledger = std::env::var("VH_LEDGER").map(|v| v == "1").unwrap_or(false);
+    let probe = std::env::var("VH_PROBE").map(|v| v != "0").unwrap_or(true);
+    let ecfg = RunCfg { probe_entities: probe, probe_stores: false, ledger };
+    let scfg = RunCfg { probe_entities: probe, probe_stores: probe, ledger };
+    let rcfg = RunCfg { probe_entities: false, probe_stores: false, ledger };
     let mut out = String::new();
     out.push_str("domain world\n");
     match args.get(1).map(|s| s.as_str()) {
@@ -30,62 +56,68 @@ fn main() {
                 let len = rng.range(3, maxlen as u64) as usize;
                 let ops = gen_script(&mut rng, len);
                 out.push_str(&format!("case g{}-{}\n", c, sub));
-                run_script(&ops, true, &mut rng, &mut out);
+                run_script(&ops, ecfg, &mut rng, &mut out);
                 if out.len() > 1 << 16 { flush(&mut out); }
             }
         }
-        Some("exh") => {
-            let len: usize = args[2].parse().unwrap();
-            let shard: usize = args.get(3).map(|s| s.parse().unwrap()).unwrap_or(0);
-            let nshards: usize = args.get(4).map(|s| s.parse().unwrap()).unwrap_or(1);
-            let alpha = exhaustive_alphabet();
+        Some("sgen") => {
+            let seed: u64 = args[2].parse().unwrap();
+            let cases: usize = args[3].parse().unwrap();
+            let maxlen: usize = args[4].parse().unwrap();
+            let focus = args.get(5).map(|s| s.as_str()).unwrap_or("any");
+            let mut master = Rng::new(seed ^ 0x5eed);
+            for c in 0..cases {
+                let sub = master.next();
+                let mut rng = Rng::new(sub);
+                let len = rng.range(3, maxlen as u64) as usize;
+                let p = random_profile(&mut rng, focus);
+                let ops = gen_store_script(&mut rng, len, &p);
+                out.push_str(&format!("case s{}-{}\n", c, sub));
+                let cfg = if p.far_apart { RunCfg { probe_entities: false, ..scfg } } else { scfg };
+                run_script(&ops, cfg, &mut rng, &mut out);
+                if out.len() > 1 << 16 { flush(&mut out); }
+            }
+        }
+        Some("exh") | Some("sexh") => {
+            let store = args[1] == "sexh";
+            let (alpha, a0) = if store {
+                let k: usize = args[2].parse().unwrap();
+                (store_alphabet(k), 3)
+            } else { (exhaustive_alphabet(), 2) };
+            let kind: usize = if store { args[2].parse().unwrap() } else { 0 };
+            let len: usize = args[a0].parse().unwrap();
+            let shard: usize = args.get(a0 + 1).map(|s| s.parse().unwrap()).unwrap_or(0);
+            let nshards: usize = args.get(a0 + 2).map(|s| s.parse().unwrap()).unwrap_or(1);
             let k = alpha.len();
             let total = k.pow(len as u32);
             let mut rng = Rng::new(0);
             for idx in 0..total {
                 if idx % nshards != shard { continue; }
                 let mut x = idx;
-                let mut ops = Vec::with_capacity(len);
+                let mut ops = Vec::with_capacity(len + 1);
+                if store { ops.push(Op::Reg(kind, 0)); }
                 for _ in 0..len { ops.push(alpha[x % k].clone()); x /= k; }
-                out.push_str(&format!("case x{}-{}\n", len, idx));
-                run_script(&ops, true, &mut rng, &mut out);
+                out.push_str(&format!("case {}{}-{}-{}\n", if store { "y" } else { "x" }, kind, len, idx));
+                run_script(&ops, if store { scfg } else { ecfg }, &mut rng, &mut out);
                 if out.len() > 1 << 16 { flush(&mut out); }
             }
         }
         Some("run") => {
-            let text = std::fs::read_to_string(&args[2]).unwrap();
-            let mut cur: Option<(String, Vec<Op>)> = None;
             let mut rng = Rng::new(0);
-            let mut fin = |cur: &mut Option<(String, Vec<Op>)>, out: &mut String| {
-                if let Some((id, ops)) = cur.take() {
-                    out.push_str(&format!("case {}\n", id));
-                    run_script(&ops, false, &mut rng, out);
-                }
-            };
-            for line in text.lines() {
-                let line = line.trim();
-                if line.is_empty() || line.starts_with('#') || line.starts_with("domain") { continue; }
-                if let Some(id) = line.strip_prefix("case ") {
-                    fin(&mut cur, &mut out);
-                    cur = Some((id.trim().to_string(), Vec::new()));
-                } else {
-                    let op = parse_op(line).unwrap_or_else(|| panic!("bad op line: {}", line));
-                    if cur.is_none() { cur = Some(("anon".into(), Vec::new())); }
-                    cur.as_mut().unwrap().1.push(op);
-                }
+            for (id, ops) in read_scripts(&args[2]) {
+                out.push_str(&format!("case {}\n", id));
+                run_script(&ops, rcfg, &mut rng, &mut out);
             }
-            fin(&mut cur, &mut out);
         }
         Some("cont") | Some("contgen") => {
-            // continuations of a base script: all alphabet sequences of length <= depth, or random ones
-            let text = std::fs::read_to_string(&args[2]).unwrap();
-            let base: Vec<Op> = text.lines().map(|l| l.trim())
-                .filter(|l| !l.is_empty() && !l.starts_with('#') && !l.starts_with("case ") && !l.starts_with("domain"))
-                .map(|l| parse_op(l).unwrap_or_else(|| panic!("bad op line: {}", l))).collect();
+            let base: Vec<Op> = read_scripts(&args[2]).into_iter().flat_map(|(_, ops)| ops).collect();
+            let has_store = base.iter().any(|o| matches!(o, Op::Reg(..)));
+            let kinds: Vec<usize> = base.iter().filter_map(|o| if let Op::Reg(k, _) = o { Some(*k) } else { None }).collect();
             let mut rng = Rng::new(1);
+            let cfg = if has_store { scfg } else { ecfg };
             if args[1] == "cont" {
                 let depth: usize = args[3].parse().unwrap();
-                let alpha = exhaustive_alphabet();
+                let alpha = if has_store { store_alphabet(kinds[0]) } else { exhaustive_alphabet() };
                 let k = alpha.len();
                 for len in 0..=depth {
                     for idx in 0..k.pow(len as u32) {
@@ -93,7 +125,7 @@ fn main() {
                         let mut ops = base.clone();
                         for _ in 0..len { ops.push(alpha[x % k].clone()); x /= k; }
                         out.push_str(&format!("case c{}-{}\n", len, idx));
-                        run_script(&ops, true, &mut rng, &mut out);
+                        run_script(&ops, cfg, &mut rng, &mut out);
                         if out.len() > 1 << 16 { flush(&mut out); }
                     }
                 }
@@ -106,15 +138,23 @@ fn main() {
                     let mut r = Rng::new(master.next());
                     let l = r.range(1, len as u64) as usize;
                     let mut ops = base.clone();
-                    ops.extend(gen_script(&mut r, l));
+                    if has_store {
+                        let mut p = random_profile(&mut r, "any");
+                        p.kinds = kinds.clone();
+                        p.far_apart = false;
+                        let ext: Vec<Op> = gen_store_script(&mut r, l, &p).into_iter().filter(|o| !matches!(o, Op::Reg(..))).collect();
+                        ops.extend(ext);
+                    } else {
+                        ops.extend(gen_script(&mut r, l));
+                    }
                     out.push_str(&format!("case r{}\n", c));
-                    run_script(&ops, true, &mut r, &mut out);
+                    run_script(&ops, cfg, &mut r, &mut out);
                     if out.len() > 1 << 16 { flush(&mut out); }
                 }
             }
         }
         _ => {
-            eprintln!("usage: h_world gen|exh|run ...");
+            eprintln!("usage: h_world gen|exh|sgen|sexh|run|cont|contgen ...");
             std::process::exit(2);
         }
     }
